@@ -52,6 +52,8 @@ def run_single(ctx):
                     if r.lhs != e.label and ctx.rng.random() < 0.7:
                         continue
                     one_replacement(ctx, host.rhs, e, r.rhs, reqs, meta)
+                    if r is host and ctx.rng.random() < 0.5:
+                        one_replacement(ctx, host.rhs, e, r.rhs, reqs, meta, alias=True)
         # an edge that is not in the graph
         if rules and ctx.rng.random() < 0.2:
             g = rules[0].rhs
@@ -71,16 +73,25 @@ def run_single(ctx):
             ctx.disagree('G.replaceEdge vs fggs.replace_edge', case, impl, model)
 
 
-def one_replacement(ctx, host, e, repl, reqs, meta):
+def one_replacement(ctx, host, e, repl, reqs, meta, alias=False):
     g = host.copy()
+    if alias:
+        # the replacement IS the host graph object (a recursive rule's right-hand side rewritten with itself): the result must be the
+        # one for a copy of the graph as it was (D52: RuntimeError 'dictionary changed size during iteration', host half rewritten)
+        repl = g
+        ctx.count('replace.aliased-replacement')
     c = Coder()
     genc = c.graph(g); eenc = c.edge(e); renc = c.graph(repl)
     known = len(c.impl)
     before_nodes, before_edges, before_ext = list(g.nodes()), list(g.edges()), g.ext
     live_ids = {n.id for n in before_nodes} | {x.id for x in before_edges} | {n.id for n in repl.nodes()} | {x.id for x in repl.edges()}
-    case = dict(graph=genc, edge=eenc, replacement=renc)
+    case = dict(graph=genc, edge=eenc, replacement=renc, aliased=alias)
+    if alias:
+        repl_call, repl = g, g.copy()      # the checks below read the replacement as it was before the call
+    else:
+        repl_call = repl
     try:
-        node_map, edge_map = replace_edge(g, e, repl)
+        node_map, edge_map = replace_edge(g, e, repl_call)
         # encode result with the same coder; new implicit ids get numbers >= known
         c2 = c
         res = c2.graph(g) + ' ' + enc_list(node_map.items(), lambda p: c2.node(p[0]) + ' ' + c2.node(p[1])) + ' ' + \
@@ -94,6 +105,10 @@ def one_replacement(ctx, host, e, repl, reqs, meta):
     except KeyError:
         impl = ('raise', 'KeyError')
         node_map = edge_map = None
+    except Exception as ex:  # noqa
+        ctx.fail(f'replace_edge raised {type(ex).__name__}: {str(ex)[:80]}' + (' (the replacement is the host graph itself)' if alias else ''), case,
+                 repr(ex), None, tags=['replace', 'raises', type(ex).__name__] + (['aliased-replacement'] if alias else []))
+        return
     nontriv = len(list(repl.edges())) >= 1 and len(list(repl.nodes())) > len(repl.ext)
     ctx.case(case, (genc, eenc, renc) if nontriv else None, sample_every=300)
     ctx.count('replace.' + impl[0] + ('' if impl[0] == 'ok' else '.' + impl[1]))
